@@ -1,6 +1,8 @@
 package props
 
 import (
+	"golang.org/x/tools/go/ssa"
+
 	"rtpcheck/core"
 )
 
@@ -14,14 +16,18 @@ func c17(c *Ctx) {
 	r.Explain = "BITS: Marshal/Unmarshal bit provenance vs the specification tables; BOUNDS: Unmarshal total; " +
 		"RESET R1: every field decoded on some path is defined on every success path (receiver-independent result)."
 	nf := 0
+	var entries []*ssa.Function
 	for _, tn := range c17Types {
 		fn := p.Method("rtp", tn, "Unmarshal")
-		if fn == nil {
-			r.Fatalf("anchor rtp.%s.Unmarshal not found", tn)
+		ma := p.Method("rtp", tn, "Marshal")
+		if fn == nil || ma == nil {
+			r.Fatalf("anchor rtp.%s.{Marshal,Unmarshal} not found", tn)
 			continue
 		}
 		nf += resetR1(c, fn, 0, nil)
+		entries = append(entries, fn, ma)
 	}
+	boundsFor(c, "C17", entries)
 	r.Floor("decoded fields checked by RESET.R1", nf, 8)
 	_ = core.FuncName
 }
